@@ -229,6 +229,8 @@ StepIterCalls ==
          expected == IF isDrain THEN EmptyMap ELSE a
          tags == ProtoFails(e.res, Elems(a), e.adapt, e.k, e.panic = 1)
                  \cup (IF e.it = "sorted" /\ e.adapt \in {"", "none"} THEN OrderWalk(e.res, 1, Elems(a), e.kind) ELSE {})
+                 \cup (IF e.it # "sorted" /\ e.adapt \in {"", "none"} /\ "ref" \in DOMAIN e /\ Len(e.ref) = Cardinality(DOMAIN a)
+                       THEN PosWalk(e.res, e.ref, 1, 0, Len(e.ref)) ELSE {})
                  \cup (IF e.op = "iter_calls" /\ e.hs = 1
                        THEN LET sf == SnapFails(e.snap, e.kind, expected, ordered, Empty) IN
                             IF isDrain /\ sf \cap {"contents", "payload", "tag"} # {} THEN (sf \ {"contents", "payload", "tag"}) \cup {"drain_not_empty"} ELSE sf
